@@ -15,4 +15,7 @@ let () =
   | "c18" -> per_line M_c18.line
   | "c18s" -> per_line M_c18.sline
   | "judge" -> Judge.main (Array.to_list (Array.sub Sys.argv 2 (Array.length Sys.argv - 2)))
+  | "c17" -> per_line M_c17.line
+  | "c17u" -> per_line M_c17.uline
+  | "c17e" -> per_line M_c17.eline
   | _ -> prerr_endline ("unknown mode " ^ mode); exit 2
